@@ -26,7 +26,7 @@ MANIFEST = {
             "pre-fix number parser (no float_roundtrip) stays transcribed and refuted by a vm_compute witness. Model "
             "tied to the code by tree-level and text-level correspondence streams (incl. the exact reader vs the real "
             "serde_json parser on ryu texts, edge/random number texts and whole documents; the exact printer's texts "
-            "re-read by the real parser); the round trip itself searched in process and through the real CLI binary",
+            "re-read by the real parser); the round trip itself searched in process and through the real CLI binary; round 7: LARGE documents in the CLI echo search (2-, 3-, 4-byte characters x 4 alignments, 80-200 KB, through stdin, stdin + -o and -i) after seed C06-11 (piped stdin decoded per 64 KiB chunk)",
     "note": "trusted: Coq kernel + vm_compute; the four standard-library axioms of Flocq/Reals under the theorems that "
             "need u64/i64 `as f64` finite or the correctly rounded reader; hand transcription validated by differential "
             "streams (not proof); NOT proved: that ryu (what serde_json really prints) writes the SHORTEST decimal that "
